@@ -153,4 +153,12 @@ package keeper
 //@ modifies Bank, Other
 //@ assert before communityTax: oracleReward == ext("NewDecCoinsFromCoins", oracleRewardInt)
 //@ loop 0: invariant forall j :: 0 <= j && j < len(toReward) ==> (exists i :: 0 <= i && i < #i && toReward[j].power == previousVotes[i].Validator.Power)
+// the oracle share is the truncated percentage of the WHOLE fee pool; the community tax comes off that share; each
+// rewarded validator gets the share (after tax) times its TRUNCATED power fraction, truncated; what is left over
+// after all of them is what the proposer gets
+//@ assert after oracleRewardInt: oracleRewardInt == ext("DecCoins.TruncateDecimal", ext("DecCoins.MulDecTruncate", totalFee, wrap64(oracleParams(Store_oracle).OracleRewardPercentage) * 10000000000000000))
+//@ assert after communityFund: communityFund == ext("DecCoins.TruncateDecimal", ext("DecCoins.MulDecTruncate", ext("NewDecCoinsFromCoins", oracleRewardInt), communityTax))
+//@ assert after remaining: remaining == ext("DecCoins.Sub", ext("NewDecCoinsFromCoins", oracleRewardInt), ext("NewDecCoinsFromCoins", communityFund)) && oracleReward == remaining
+//@ assert after powerFraction: totalPower != 0 && powerFraction == (each.power * 1000000000000000000 * 1000000000000000000) / (totalPower * 1000000000000000000)
+//@ assert after reward: reward == ext("DecCoins.MulDecTruncate", oracleReward, powerFraction)
 //@ loop 1: invariant true
